@@ -560,6 +560,20 @@ SCaseLabel == CRunning /\ Top.k = "s" /\ S.k \in {"case", "default"} /\ ck' = Po
 (* unwind the stack to the innermost item satisfying a kind test; position 0 if none *)
 InnerPos(kinds) == LET P == {j \in 1..Len(ck) : ck[j].k \in kinds} IN IF P = {} THEN 0 ELSE CHOOSE j \in P : \A q \in P : q <= j
 
+(* goto: labels are top-level statements of a function body placed after its top-level declarations (the generator      *)
+(* guarantees this, and that names are unique, so the environment needs no adjustment); the continuation becomes the rest *)
+(* of the body after the label, dropping every enclosing loop/switch/block item of this function activation.             *)
+CurFunc == LET j == InnerPos({"call"}) IN IF j = 0 THEN "main" ELSE ck[j].fn
+SGoto ==
+  /\ IsStmt("goto")
+  /\ LET j == InnerPos({"call"})
+         body == FuncByName(CurFunc).body
+         P == {i \in 1..Len(body.ss) : body.ss[i].k = "label" /\ body.ss[i].n = S.n} IN
+       IF P = {} THEN Fail("goto-undefined-label")
+       ELSE /\ ck' = Append(SubSeq(ck, 1, j), [k |-> "seq", ss |-> body.ss, i |-> (CHOOSE i \in P : TRUE) + 1, env0 |-> env])
+            /\ CTick /\ UNCHANGED <<cpid, genv, env, mem, cout, cstatus, cret, depth>>
+SLabel == IsStmt("label") /\ ck' = Pop /\ CTick /\ UNCHANGED <<cpid, genv, env, mem, cout, cstatus, cret, depth>>
+
 SBreak ==
   /\ IsStmt("break")
   /\ LET j == InnerPos({"loop", "sw"}) IN
@@ -624,7 +638,7 @@ SCall ==        \* [l =] f(args);  arguments are pure expressions
                         IF \E j \in 1..Len(g.params) : g.params[j].n = nm
                         THEN LET j == CHOOSE j \in 1..Len(g.params) : g.params[j].n = nm IN [obj |-> base + j, t |-> g.params[j].t]
                         ELSE genv[nm]]
-            /\ ck' = Push(Push(Pop, [k |-> "call", env0 |-> env, hasl |-> "l" \in DOMAIN S, l |-> IF "l" \in DOMAIN S THEN S.l ELSE [k |-> "nop"], rt |-> g.ret,
+            /\ ck' = Push(Push(Pop, [k |-> "call", env0 |-> env, hasl |-> "l" \in DOMAIN S, l |-> IF "l" \in DOMAIN S THEN S.l ELSE [k |-> "nop"], rt |-> g.ret, fn |-> S.f,
                                              \* trailing arguments of a variadic call after the default argument promotions (6.5.2.2p7)
                                              va |-> [j \in 1..(Len(S.args) - Len(g.params)) |-> DefaultPromote(av[Len(g.params) + j])], vai |-> 1]),
                           [k |-> "s", s |-> g.body])
@@ -679,7 +693,7 @@ SMain ==        \* after the globals: enter main's body with the global environm
   /\ CTick /\ UNCHANGED <<cpid, env, mem, cout, cstatus, cret, depth>>
 
 CNext == SExpr \/ SAsg \/ SObs \/ SDecl \/ SStatic \/ SVla \/ SBlock \/ SSeq \/ SIf \/ SLoop \/ SLoopTest \/ SNop \/ SCaseLabel \/ SBreak \/ SContinue
-         \/ SSwitch \/ SSwitchEnd \/ SVaArg \/ SCall \/ SCallEnd \/ SReturn \/ SRetAsg \/ SEnd \/ COutOfFuel \/ SMain
+         \/ SSwitch \/ SSwitchEnd \/ SGoto \/ SLabel \/ SVaArg \/ SCall \/ SCallEnd \/ SReturn \/ SRetAsg \/ SEnd \/ COutOfFuel \/ SMain
 
 CSpec == CInit /\ [][CNext]_cvars
 CDone == cstatus # "run"
